@@ -495,6 +495,7 @@ func init() {
 	plans["C10"] = Plan{
 		Quick: []Job{
 			{H: "H_C10_WaitWithReleased", K: 36, U: 3, Prune: true, TimeoutSec: 900},
+			{H: "H_C10_AccessSimple", K: 60, U: 3, Prune: true, Preempt: 2, Covers: 1, TimeoutSec: 770},
 			{H: "H_C10_ResolveWithReleased", K: 66, U: 3, Prune: true, Preempt: 1, Covers: 1, TimeoutSec: 770, QueryMs: 400000},
 			{H: "H_C10_Resolve", K: 66, U: 3, Prune: true, Preempt: 1, Covers: 1, TimeoutSec: 770, QueryMs: 400000},
 		},
@@ -506,7 +507,7 @@ func init() {
 			{H: "H_C10_AccessInvalidate", K: 64, U: 3, Prune: true, Preempt: 1, TimeoutSec: 9000, QueryMs: 6000000, Weight: 2},
 			{H: "H_C10_AccessPrompt", K: 64, U: 3, Prune: true, Preempt: 1, TimeoutSec: 9000, QueryMs: 6000000, Weight: 2},
 		},
-		Bounds:  "value already resolved; WaitWithReleased concurrent with one invalidation (SetContext), K=36; a consumer obtaining the value through ResolveWithReleased / Resolve, holding it, optionally invalidated by the resolver's released() while holding (symbolic), then releasing: value not released while referenced unless invalidated, released callback exactly once after an invalidation and never otherwise, every value released exactly once (K=66, at most 1 preemption; thorough: 2 preemptions, and K=84 with 3). Thorough: Access whose first callback invocation invalidates its own value and waits until the invalidation is delivered (must be re-invoked with the replacement; must not return the stale invocation's result; variant AccessPrompt: the replacement is not resolved until the first invocation has seen its context cancelled), schedules with at most 1 preemption, K=64 (encoding alone takes ~13 min)",
+		Bounds:  "Access without invalidation: callback invoked once with the resolved value, Access returns the callback's result / the resolver's error, its reference is released afterwards (resolver and callback outcomes symbolic, K=60, at most 2 preemptions); value already resolved; WaitWithReleased concurrent with one invalidation (SetContext), K=36; a consumer obtaining the value through ResolveWithReleased / Resolve, holding it, optionally invalidated by the resolver's released() while holding (symbolic), then releasing: value not released while referenced unless invalidated, released callback exactly once after an invalidation and never otherwise, every value released exactly once (K=66, at most 1 preemption; thorough: 2 preemptions, and K=84 with 3). Thorough: Access whose first callback invocation invalidates its own value and waits until the invalidation is delivered (must be re-invoked with the replacement; must not return the stale invocation's result; variant AccessPrompt: the replacement is not resolved until the first invocation has seen its context cancelled), schedules with at most 1 preemption, K=64 (encoding alone takes ~13 min)",
 		Outside: "more than one invalidation; an independent invalidator thread racing Access (unrolling does not finish)",
 	}
 
